@@ -772,7 +772,14 @@ def check_builder_semantics(ctx, led, rule="C16.semantic"):
                 )
                 continue
             if val is None:
-                led.violation(rule + ".total", ck, where, "the builder raises on every path for a supported version")
+                hz = [e for e in evs if e.kind in ("hazard", "raise")]
+                led.violation(
+                    rule + ".total",
+                    ck,
+                    hz[-1].where() if hz else where,
+                    "the builder raises on every path for a supported version"
+                    + (": %s at %s (%s)" % (hz[-1].data.get("exc"), short(hz[-1].node), hz[-1].data.get("what") or "raise") if hz else ""),
+                )
                 continue
             for e in evs:
                 if e.kind in ("hazard", "may_raise", "raise", "none_arith"):
@@ -833,6 +840,7 @@ def check_builder_semantics(ctx, led, rule="C16.semantic"):
             if not good:
                 continue
             asked = order_found
+            ctx.memo.setdefault(("builder_order",), {})[(version, all_metrics)] = list(order_found)
             # expected concatenation, built from the specification
             expected = []
             bad = None
